@@ -65,6 +65,8 @@ def _cond(e: ast.AST, bools: set) -> str:
         return "(" + j.join(_cond(v, bools) for v in e.values) + ")"
     if isinstance(e, ast.UnaryOp) and isinstance(e.op, ast.Not):
         return f"(¬ {_cond(e.operand, bools)})"
+    if _RENAME and ast.unparse(e) in _RENAME:
+        return f"({_RENAME[ast.unparse(e)]} ≠ 0)"
     if isinstance(e, ast.Name) and e.id in bools:
         return f"({e.id} = true)"
     if isinstance(e, ast.Name):  # int truthiness
@@ -99,6 +101,18 @@ def translate_expression(expr: ast.AST, lean_name: str, rename: Dict[str, str]) 
         _RENAME = {}
     params = " ".join(f"({v} : Int)" for v in dict.fromkeys(rename.values()))
     return f"def {lean_name} {params} : Int :=\n  {body}\n"
+
+
+def translate_condition(test: ast.AST, lean_name: str, rename: Dict[str, str]) -> str:
+    """the test of an `if` statement as a decidable Lean proposition over Int parameters (returned as Bool through `decide`)"""
+    global _RENAME
+    _RENAME = dict(rename)
+    try:
+        body = _cond(test, set())
+    finally:
+        _RENAME = {}
+    params = " ".join(f"({v} : Int)" for v in dict.fromkeys(rename.values()))
+    return f"def {lean_name} {params} : Bool :=\n  decide {body}\n"
 
 
 def translate(func, lean_name: str) -> str:
